@@ -91,7 +91,9 @@ SimParams::SimParams(Input const& input)
         {
             looping[pid.get()] = iter->second;
         }
-        CELER_ASSERT(looping.back());
+        CELER_VALIDATE(looping[pid.get()],
+                       << "invalid looping threshold for particle '"
+                       << input.particles->id_to_label(pid) << "'");
     }
     make_builder(&host_data.looping).insert_back(looping.begin(), looping.end());
 
